@@ -127,6 +127,10 @@ func run(ctx context.Context, referenceMode bool, args []string, inReader io.Rea
 		PemCert: certBytes,
 	}
 	if err := codec.NewEncoder(outWriter).Encode(resp); err != nil {
+		// Nobody will learn the address. Don't leave the listener and the
+		// serving goroutine behind.
+		_ = server.GracefulShutdown(5 * time.Second)
+		<-serveDone
 		return err
 	}
 
